@@ -8,6 +8,14 @@ from ..propsbase import *
 ASSUMPTIONS = ["each assertion is executed twice on the real code over p = 97 (bitlength 2..5): with error checking on (does the "
                "run-time check accept?) and off (what circuit is emitted for these operand values?); the emitted system is then "
                "searched exhaustively for a satisfying assignment with the operand wires fixed (all auxiliary wires free)",
+               "in 30% of the cases the operand OBJECT is used earlier in the program by an operation that splits it into bits (to_bits at "
+               "the default or a wider width, assert_positive, check_positive, &, >>, %), outside any guard, under a true guard or under a "
+               "false guard; the assertion under test must then be enforced exactly as on a fresh value",
+               "declarations made by unpacking (PackIntMod.unpack on raw secret bits declares 0 <= value < mod): executed through "
+               "harness/worker_pack.py (mode unpack-raw) with checks on and off, same three-way comparison; on the large fields the recorded "
+               "witness stands in for the search",
+               "the witness search splits the system into the connected components of its free wires and tries the recorded witness first "
+               "in each component (harness/solve.py satisfiable(): complete whenever it returns)",
                "the asserted relation is also evaluated independently from the property text (equal, not equal, <, <=, >, >=, zero, "
                "non-zero, 0 <= v < 2^width, lo <= v < hi, boolean, n-bit)"]
 PARTIAL = ["gadget-level theorems are for unguarded states; C03_program (every executed assertion holds under every satisfying assignment) is "
@@ -82,15 +90,58 @@ def gen_case(rnd, cid):
         kind2 = "assert_lt"
     cfg = {"p": P, "bl": bl, "res": 1 if kind == "assert_lt_fxp" else 0, "ign": 0}
     meta = {"shape": "assert", "op": kind, "kinds": "", "abc": (a, b, c)}
+    if kind not in ("assert_eq_bool", "assert_lt_fxp") and rnd.random() < 0.3:
+        ins, meta["prelude"] = with_prelude(rnd, ins, a, bl)
     return progs.Case(cid, cfg, ins, meta)
 
 
+PRELUDES = ["to_bits", "to_bits_w", "assert_positive", "check_positive", "and", "rshift", "mod"]
+
+
+def with_prelude(rnd, ins, a, bl):
+    """the operand OBJECT under test (r1) is used earlier in the program by an operation that splits it into bits at the
+    default or a wider width (to_bits, assert_positive, check_positive, &, >>, %), outside any guard, under a true guard or
+    under a FALSE guard; the assertion that follows must be enforced exactly as on a fresh value.  Outside a false guard the
+    earlier use is only generated where it is valid for the operand (0 <= a < 2^bitlength)."""
+    guard = rnd.choice([None, None, 0, 0, 1])
+    valid = 0 <= a < (1 << bl)
+    if not valid and guard != 0:
+        if rnd.random() < 0.5:
+            return ins, None
+        guard = 0
+    k = rnd.choice(PRELUDES)
+    pre = []
+    nxt = lambda: 2 + len(pre)
+    if guard is not None:
+        pre += [progs.lit_int(guard), "mk priv r2", "genter r3"]
+    if k == "to_bits":
+        pre.append("call to_bits r1")
+    elif k == "to_bits_w":
+        w = min(5, rnd.choice([bl, bl + 1, 5]))
+        if valid and a >= (1 << w): w = 5
+        pre.append(progs.lit_int(w)); pre.append(f"call to_bits r1 r{nxt() - 1}")
+    elif k == "assert_positive":
+        pre.append("call assert_positive r1")
+    elif k == "check_positive":
+        pre.append("call check_positive r1")
+    elif k == "and":
+        pre.append(progs.lit_int(rnd.randrange(0, 1 << (bl - 1)))); pre.append(f"mk priv r{nxt() - 1}"); pre.append(f"bin and r1 r{nxt() - 1}")
+    elif k == "rshift":
+        pre.append(progs.lit_int(rnd.randrange(0, 3))); pre.append(f"bin rshift r1 r{nxt() - 1}")
+    else:
+        pre.append(progs.lit_int(rnd.randrange(1, 1 << (bl - 1)) if bl > 1 else 1)); pre.append(f"bin mod r1 r{nxt() - 1}")
+    if guard is not None:
+        pre.append("gleave")
+    import re
+    sh = len(pre)
+    rest = [re.sub(r"\br(\d+)\b", lambda m: f"r{int(m.group(1)) + sh}" if int(m.group(1)) >= 2 else m.group(0), t) for t in ins[2:]]
+    return ins[:2] + pre + rest, k + {None: "", 0: ":false-guard", 1: ":true-guard"}[guard]
+
+
 def sat_job(job):
-    cons, fixed, unknown = job
+    cons, fixed, unknown, hint = job
     try:
-        for _ in solve.solve(cons, fixed, unknown, P, limit=200000):
-            return True
-        return False
+        return solve.satisfiable(cons, fixed, unknown, P, hint=hint, limit=200000)
     except solve.Limit:
         return None
 
@@ -98,8 +149,8 @@ def sat_job(job):
 def explore(ctx, extended=False, focus=None):
     ex = Exploration()
     ex.rule = ("every assertion kind (eq, ne, lt, le, gt, ge, zero, non-zero, non-negative with default and explicit width, range, "
-               "boolean declaration, n-bit declaration; integer, boolean and fixed-point receivers; secret and constant right "
-               "operands) on operand values on both sides of the relation and at its boundaries; per case: accepted by the run-time "
+               "boolean declaration, n-bit declaration, unpacking of raw secret bits modulo m; integer, boolean and fixed-point receivers; "
+               "secret and constant right operands; operand fresh or already split into bits earlier in the program) on operand values on both sides of the relation and at its boundaries; per case: accepted by the run-time "
                "check? / emitted system satisfiable with the operands fixed? / relation true?; distinct = (kind, bitlength, operands)")
     n = ctx.n(1200, 32000) * (3 if extended else 1)
     cases = corpus_cases("C03") + [gen_case(ctx.rnd, f"c03_{i}") for i in range(n)]
@@ -126,7 +177,8 @@ def explore(ctx, extended=False, focus=None):
         for i in inputs:
             fixed[f"w{i+1}"] = r0.priv[i] % P
         unknown = [f"w{i+1}" for i in range(len(r0.priv)) if i not in inputs]
-        jobs.append((cons, fixed, unknown)); idx.append(k)
+        hint = {f"w{i+1}": v % P for i, v in enumerate(r0.priv)}     # tried first, per connected component of the system
+        jobs.append((cons, fixed, unknown, hint)); idx.append(k)
     with mp.Pool(14) as pool:
         res = pool.map(sat_job, jobs, chunksize=8)
     for k, sat in zip(idx, res):
@@ -142,6 +194,10 @@ def explore(ctx, extended=False, focus=None):
             continue        # TypeError etc.: not a statement about the relation
         rel = relation(kind, bl, a, b, c)
         sig = {"assertion": kind}
+        pre = r1.case.meta.get("prelude")
+        if pre:
+            sig["history"] = "operand-split-earlier" + ("-under-" + pre.split(":")[1] if ":" in pre else "")
+            ex.count(f"prelude:{pre}")
         if kind in ("assert_positive_w", "to_bits_w"):
             sig["width"] = "below-bitlength" if b < bl else ("above-bitlength" if b > bl else "equal")
         rep = {"case": r1.case.line(), "operands": [a, b, c], "accepted_at_runtime": accepted, "circuit_satisfiable": sat,
@@ -161,6 +217,7 @@ def explore(ctx, extended=False, focus=None):
         if len(ex.samples) < 6:
             ex.samples.append(r1.case.line())
     histories_after_failure(ctx, ex, extended)
+    unpack_secret_bits(ctx, ex, extended)
     return ex
 
 
@@ -201,10 +258,175 @@ def histories_after_failure(ctx, ex, extended):
                                            f"(history: T( {inner} ) {final}; state after: {f[2]} {f[3]})", {"history": l}))
 
 
+def _schema_str(s):
+    if s[0] == "B": return "B"
+    if s[0] == "M": return f"M{s[1]}"
+    if s[0] == "L": return "L(" + ",".join(_schema_str(x) for x in s[1]) + ")"
+    return f"R{s[2]}({_schema_str(s[1])})"
+
+
+def _fields(s):
+    """the leaf fields of a packer schema in bit order"""
+    if s[0] in ("B", "M"): return [s]
+    if s[0] == "L": return [f for x in s[1] for f in _fields(x)]
+    return [f for _ in range(s[2]) for f in _fields(s[1])]
+
+
+def gen_unpack_job(rnd, small):
+    """a packer schema and a list of RAW SECRET bits (PrivVal(0/1), not of the boolean type) handed to `unpack`: the declaration
+    `0 <= value < mod` of every PackIntMod field is the subject; field values sit at mod-1, mod, mod+1, 0, 2^n-1 and random"""
+    bl = rnd.choice([2, 3, 4, 5]) if small else rnd.choice([8, 16, 32])
+    def field():
+        if rnd.random() < 0.15:
+            return ["B"]
+        c = rnd.random()
+        top = 1 << bl
+        if c < 0.55:                                            # not a power of two: the bits can encode values >= mod
+            m = rnd.choice([3, 5, 6, 7, 9, 10, 11, 12, 13, 14, 15, 17, 20, 24, 31] if small else [3, 5, 6, 10, 12, 13, 100, 255, 257, 1000, 40000])
+            while m > top: m = m // 2 + 1
+        elif c < 0.85:
+            m = 1 << rnd.randrange(1, min(bl, 15) + 1)
+        else:                                                   # wider than the bitlength: mod - v - 1 may not fit
+            m = rnd.choice([top + 1, top + 3, 2 * top - 1]) if small else rnd.choice([top + 1, 3 * top])
+        return ["M", max(m, 2)]
+    k = rnd.choice([1, 1, 1, 1, 2, 3])
+    if k == 1:
+        s = field()
+        if s[0] == "B": s = ["M", 5 if bl > 2 else 3]
+    elif rnd.random() < 0.3:
+        s = ["R", field(), k]
+    else:
+        s = ["L", [field() for _ in range(k)]]
+    vals = []; bits = []
+    for f in _fields(s):
+        if f[0] == "B":
+            v = rnd.choice([0, 1]); n = 1
+        else:
+            m = f[1]; n = (m - 1).bit_length()
+            v = rnd.choice([m - 1, m, m, m + 1, 0, (1 << n) - 1, rnd.randrange(0, 1 << n), rnd.randrange(0, m)])
+            v = max(0, min(v, (1 << n) - 1))
+        vals.append(v); bits += [f"L:{(v >> i) & 1}" for i in range(n)]
+    if rnd.random() < 0.1:
+        bits.append("L:1")                                      # a trailing bit that belongs to nobody
+    return {"schema": s, "bits": bits, "mode": "unpack-raw", "p": P if small else common.BN128, "bl": bl, "vals": vals}
+
+
+def unpack_job(job):
+    cons, fixed, unknown, p, hint = job
+    try:
+        return solve.satisfiable(cons, fixed, unknown, p, hint=hint, limit=200000)
+    except solve.Limit:
+        return None
+
+
+def unpack_secret_bits(ctx, ex, extended):
+    """declarations made by unpacking: `PackIntMod(mod).unpack(bits, pos)` on raw secret bits declares 0 <= value < mod.
+    Run-time accept/reject must equal that relation; with error checking off the emitted system, with the bit wires fixed,
+    must be satisfiable exactly when the relation holds (exhaustive search over p = 97; on the large fields: the recorded
+    witness must violate a constraint when the relation is false)"""
+    import json
+    rnd = ctx.rnd
+    n = ctx.n(300, 6000) * (2 if extended else 1)
+    jobs = [gen_unpack_job(rnd, small=(i % 3 != 2)) for i in range(n)]
+    lines = []; mlines = []
+    for i, j in enumerate(jobs):
+        for ign in (0, 1):
+            lines.append(f"K|u{i}_{ign}|{j['bl']}|" + json.dumps(dict(j, ign=ign)))
+            mlines.append(f"K|u{i}_{ign}|{j['bl']}|{_schema_str(j['schema'])}|[{','.join(j['bits'])}]|U|{j['p']}|{ign}")
+    outs = common.run_workers(lines, script="worker_pack.py")
+    ml = common.lean_driver(mlines)
+    sat_jobs = []; sat_idx = []
+    recs = []
+    for i, j in enumerate(jobs):
+        on = json.loads(outs[2 * i].split("|", 1)[1]); off = json.loads(outs[2 * i + 1].split("|", 1)[1])
+        for d in (on, off):
+            if "harness-error" in d:
+                raise common.Infra(str(d))
+        for d, m, l in ((on, ml[2 * i], lines[2 * i]), (off, ml[2 * i + 1], lines[2 * i + 1])):
+            mf = m.split("|")
+            if "UNMODELLED" in m:
+                ex.unmodelled += 1; continue
+            impl = f"ok|{d['bitlen']}|{d['backstr']}|NPRIV={len(d['priv'])}|CONS={' & '.join(d['cons'])}" if d["unpack"] == "ok" \
+                else f"err:{d['unpack']}|{d['bitlen']}"
+            if "|".join(mf[1:]) != impl:
+                ex.disagreements.append({"case": l, "impl": impl[:300], "model": m[:300]})
+            else:
+                ex.traces_validated += 1
+        recs.append((on, off))
+        if j["p"] == P and off["unpack"] == "ok":
+            fixed = {f"w{k+1}": off["priv"][k] for k in range(off["ninputs"])}
+            unknown = [f"w{k+1}" for k in range(off["ninputs"], len(off["priv"]))]
+            hint = {f"w{k+1}": v for k, v in enumerate(off["priv"])}
+            sat_jobs.append((solve.parse_cons(off["cons"]), fixed, unknown, P, hint)); sat_idx.append(i)
+    with mp.Pool(14) as pool:
+        res = dict(zip(sat_idx, pool.map(unpack_job, sat_jobs, chunksize=8)))
+    for i, (j, (on, off)) in enumerate(zip(jobs, recs)):
+        ex.evaluations += 1
+        bl = j["bl"]; fields = _fields(j["schema"])
+        ex.distinct.add(("unpack", _schema_str(j["schema"]), tuple(j["vals"]), bl))
+        fits = lambda v: 0 <= v < (1 << bl)
+        mf = [(f, v) for f, v in zip(fields, j["vals"]) if f[0] == "M"]
+        bad = [(f, v) for f, v in mf if not v < f[1]]
+        rel = not bad                                           # the declared relation: 0 <= value < mod for every field
+        # the comparison is made at the global bitlength: a modulus wider than that may be refused although in range
+        narrow = [(f, v) for f, v in mf if v < f[1] and not fits(f[1] - v - 1)]
+        f0, v0 = bad[0] if bad else (narrow[0] if narrow else (mf[0] if mf else (["M", 0], 0)))
+        mclass = "no-integer-field" if f0[1] == 0 else "above-bitlength" if f0[1] > (1 << bl) else "power-of-two" if f0[1] & (f0[1] - 1) == 0 else "not-a-power-of-two"
+        vclass = "below" if v0 < f0[1] else "equal-to-modulus" if v0 == f0[1] else "above"
+        sig = {"assertion": "unpack", "bits": "secret-raw", "modulus": mclass, "value": vclass, "field": "small" if j["p"] == P else "large"}
+        rep = {"job": {k: j[k] for k in ("schema", "bits", "mode", "p", "bl")}, "field_values": j["vals"], "relation_true": rel,
+               "checks_on": {k: on.get(k) for k in ("unpack", "back")}, "checks_off": {k: off.get(k) for k in ("unpack", "back", "unsat")}}
+        what = f"PackIntMod.unpack on raw secret bits, schema {_schema_str(j['schema'])}, field values {j['vals']}, bitlength {bl}"
+        accepted = on["unpack"] == "ok"
+        ex.count(f"unpack:{mclass}:{vclass}:{'acc' if accepted else 'rej:' + on['unpack']}")
+        if not accepted and on["unpack"] not in ("AssertionError", "ValueError"):
+            continue
+        if accepted and not rel:
+            ex.violations.append(Violation(dict(sig, dev="runtime-relation-differs"),
+                                           f"{what}: the run-time check accepts, but field {_schema_str(f0)} holds {v0}", rep))
+        if not accepted and rel and not narrow:
+            ex.violations.append(Violation(dict(sig, dev="runtime-relation-differs"),
+                                           f"{what}: the run-time check rejects ({on['unpack']}) although 0 <= value < mod for every field", rep))
+        if accepted:
+            want = j["vals"][0] if j["schema"][0] == "M" else j["vals"]
+            if on["back"] != want:
+                ex.violations.append(Violation(dict(sig, dev="unpacked-value"), f"{what}: unpack returned {on['back']}", rep))
+        if off["unpack"] != "ok":
+            continue
+        if j["p"] == P:
+            sat = res.get(i)
+            if sat is None:
+                ex.count("search:limit"); continue
+            ex.count("search:complete"); rep["circuit_satisfiable"] = sat
+        else:
+            sat = not off["unsat"]          # large field: the recorded witness stands in for the search
+        how = "with the bit wires fixed the emitted constraints are satisfiable" if j["p"] == P else \
+              "traced with error checking off, every emitted constraint holds on the recorded witness"
+        if sat and not rel:
+            ex.violations.append(Violation(dict(sig, dev="satisfiable-out-of-range"),
+                                           f"{what}: {how} although field {_schema_str(f0)} holds {v0}: the circuit does not enforce value < mod", rep))
+        if rel and not narrow and not sat:
+            ex.violations.append(Violation(dict(sig, dev="accepted-but-unsatisfiable"),
+                                           f"{what}: in range, but the emitted system is not satisfied / satisfiable", rep))
+        if sat != accepted and not (narrow and rel):
+            ex.violations.append(Violation(dict(sig, dev="rejected-but-satisfiable" if sat else "accepted-but-unsatisfiable"),
+                                           f"{what}: run-time check {'accepts' if accepted else 'rejects'}, emitted system "
+                                           f"{'satisfiable' if sat else 'unsatisfiable'}", rep))
+
+
 def replay(ctx, payload):
+    if "job" in payload["replay"]:
+        import json
+        j = payload["replay"]["job"]
+        for ign in (0, 1):
+            print(f"checks {'off' if ign else 'on'}: impl :", common.run_workers([f"K|r|{j['bl']}|" + json.dumps(dict(j, ign=ign))], script="worker_pack.py")[0][:1500])
+            print("            model:", common.lean_driver([f"K|r|{j['bl']}|{_schema_str(j['schema'])}|[{','.join(j['bits'])}]|U|{j['p']}|{ign}"])[0][:1500])
+        return 0
     if "history" in payload["replay"]:
         l = payload["replay"]["history"]
         print("impl :", common.run_workers([l], script="worker_guard.py")[0]); print("model:", common.lean_driver([l])[0])
         return 0
-    replay_case(payload["replay"]["case"])
+    line = payload["replay"]["case"]
+    print("error checking on:"); replay_case(line)
+    print("error checking off (the circuit emitted for these operand values):"); replay_case(line.replace(",ign=0|", ",ign=1|"))
     return 0
